@@ -14,8 +14,16 @@ for f in kf:
 bad = 0
 if sh('git -C /repo status --porcelain').stdout.strip():
     print('repo not clean'); sys.exit(2)
+# fix commits whose surrounding lines were changed by later repairs: the defect is re-introduced by hand
+custom_revert = {
+    '9d35f53': "python3 -c \"p='/repo/clipper_base.go'; s=open(p).read(); k='func (c *clipperBase) executeInternal(ct ClipType, fillRule FillRule) {\\n\\tc.succeeded = true\\n'; assert s.count(k)==1; open(p,'w').write(s.replace(k, k[:k.index('\\tc.succeeded')]))\"",
+}
 for commit, fs in fixed.items():
     r = sh(f'git -C /repo show {commit} -- . ":(exclude)contracts_verif.go" | git -C /repo apply -R')
+    if r.returncode != 0 and commit in custom_revert:
+        r = sh(custom_revert[commit])
+    if r.returncode != 0:  # later repairs changed the context lines: retry with one line of context
+        r = sh(f'git -C /repo show {commit} -- . ":(exclude)contracts_verif.go" | git -C /repo apply -R -C1')
     if r.returncode != 0:
         print('cannot revert', commit, r.stderr[:200]); bad += 1; continue
     for prop in sorted({f['property'] for f in fs}):
